@@ -833,6 +833,15 @@ class Sim:
                     others_warm = True
             if others_warm:
                 self.flags["edit_while_other_warm"] = True
+        # the registry's memoised digest (public unit_system_id, which feeds Unit.__hash__) must describe the
+        # table as it is now.  Read through the private attribute so that the check itself fills no memo.
+        for h in node.handles:
+            sid = getattr(h, "_unit_system_id", None)
+            if sid is not None and sid != table_digest(h.lut):
+                self.violate("stale-registry-id", ["C12"],
+                             {"op": op, "note": "unit_system_id is the digest of an earlier table: it (and hash(Unit)) "
+                                                "differ from a fresh registry with the same contents"}, [k])
+                break
         return {"warm": warm, "fresh": {kk: vv for kk, vv in cold.items() if kk != "others_changed"}}
 
     def do_probe(self, op):
@@ -1233,6 +1242,17 @@ def simulate(chan, spec):
         "abstract_state": abstract_state(sim),
         "extra": {"sweep_cases_run": 1} if cfg.get("sweep") else {},
     }
+
+
+def table_digest(lut):
+    """UnitRegistry.unit_system_id as documented: md5 over the sorted table."""
+    import hashlib
+
+    data = bytearray()
+    for k_, v_ in sorted(lut.items()):
+        data.extend(k_.encode("utf8"))
+        data.extend(repr(v_).encode("utf8"))
+    return hashlib.md5(data).hexdigest()
 
 
 def si_image(x):
